@@ -30,6 +30,31 @@ PROPS['C06'] = {
     'probes': ['faults_fired', 'runs_reaching_8_rects', 'pair_coincidences_nonempty', 'convert', 'translate', 'init_from_image'],
 }
 
+IMG_REAL = ['all of pixman (33 objects compiled from /repo/pixman with -DPIXMAN_VERIF)']
+
+PROPS['C15'] = {
+    'level': 'fault_enumeration',
+    'passes': [
+        {'variant': 'asan', 'binary': 'fault', 'runs': [24000, 60000], 'deadline_s': [150, 2400]},
+    ],
+    'crash_property': 'C15',
+    'rule': ("one evaluation = one seeded scenario of 8-28 API operations (constructors, setters, region algebra, composites incl. >2044-pixel-wide, "
+             "wide-format and alpha-map destinations, fills, trapezoids/triangles, glyph cache + glyph runs, filter tables).  It is run fault-free to "
+             "count the allocations n_i of each op; then for each planned fault (quick: the ops that carry a sampled fault, ordinal taken modulo n_i; "
+             "thorough: EVERY (op i, k <= n_i) x {single, persistent}) a fault-free and a faulted machine run the list in lock step and are compared "
+             "after every op.  Non-trivial = at least one injected failure was actually reached; distinct = distinct event hashes (return values, "
+             "which faults fired, final state)"),
+    'real_vs_stub': {'real': IMG_REAL, 'stub_or_simulated': ['malloc/calloc/realloc failures (link-time --wrap; real allocator underneath)', 'pixel storage from the simulator arena', 'accessor callbacks']},
+    'assumptions': COMMON_ASSUME + [
+        "the oracle is the same library running fault-free (differential): a change of what pixman draws is invisible here by design",
+        "inside the request rectangle pixel values after a failed allocation are not constrained (the property allows skipped work)",
+        "the load-time constructor's allocations (_pixman_implementation_create) are outside any API call and not faulted",
+        "crashes in the fault-free pass are reported too (class crash-*), since the driver cannot tell them apart from crashes under fault",
+    ],
+    'probes': ['faults_fired', 'failure_reported', 'fault_absorbed', 'reissued_after_failure', 'broken_region_checked'],
+    'shrink_budget': 300,
+}
+
 MANIFEST_TEXT = {}
 MANIFEST_TEXT['C06'] = {
     'technique': 'deterministic simulation: seeded operation histories with allocation-fault events against the real region code; canonical-form invariants + point-set equality oracle after every step',
@@ -37,4 +62,12 @@ MANIFEST_TEXT['C06'] = {
                    "checked against the canonical-form invariants and equal() against exact point-set equality; inputs are sampled, so a clean batch is evidence, not proof"),
     'level_note': "trusts the harness's own 60-line point-set comparison and canonical-form checker; coordinates mostly on a 40x40 grid plus excursions to the 16/32-bit limits",
     'design_ref': 'DESIGN.md section 4, C06',
+}
+
+MANIFEST_TEXT['C15'] = {
+    'technique': 'deterministic simulation with fault injection: allocation failures at every (op, k-th allocation) position x {single, persistent}, lock-step differential against the fault-free execution, exact live-block ledger',
+    'level_text': ("fault enumeration: within each sampled scenario the thorough tier fails every allocation position of every call, once singly and once persistently; "
+                   "the quick tier samples positions.  Scenarios (inputs) are sampled"),
+    'level_note': "trusts the allocator wrapper's live table and the lock-step comparison; ASan keeps memory errors visible; allocation sites that no scenario reaches are listed as gaps in the evidence",
+    'design_ref': 'DESIGN.md section 4, C15',
 }
